@@ -20,7 +20,7 @@ RULES = {
            "sequence hash. One sanitizer report ends a worker; it is restarted behind the failing case.",
     "C18": "seeded cases: 3-6 start/stop runs per camera with a consumer thread (get_frame loop), a trigger thread (paced "
            "or bursts) and the stopping thread; software trigger on/off per run, reconfiguration between runs incl. "
-           "enable->disable->enable, a quarter of the later runs started again without any set, a fifth of the runs with the same settings applied again while live; random delays injected at the camera's own lock/wait/sleep calls. Oracle: ids strictly "
+           "enable->disable->enable, a quarter of the later runs started again without any set, a fifth of the runs with the same settings applied again while live (also right before the stop), a quarter of the free-running consumers still taking frames when the stop comes; random delays injected at the camera's own lock/wait/sleep calls. Oracle: ids strictly "
            "increase within a run; with triggering: frames delivered <= triggers issued (counter bumped before the call), "
            "no frame with zero triggers, id < triggers issued since start (ids count generated frames and restart at 0); "
            "(free-running ids far ahead of elapsed/exposure are counted as information only); stop returns and releases a pending get_frame "
